@@ -26,10 +26,12 @@ def alphabet():
     ]
 
 
-def build(env, prog, params=None):
+def build(env, prog, params=None, observe=False):
     import lightworks as lw
     c = lw.Circuit(N)
     for idx, comp in enumerate(prog):
+        if observe:
+            c.get_all_params()          # the parameter list is also read between construction steps: later additions must still be listed
         k = comp[0]
         if k == "swaps":
             c.mode_swaps(dict(comp[1]))
@@ -232,7 +234,7 @@ def check_params(env, label, prog, rw):
     v2 = {i: env.const(F(2 * i + 3, 13)) for i in range(len(prog))}
     uses = {i for i, c in enumerate(prog) if c[0] in ("ps", "bs", "loss", "group", "hgroup")}
     P = {i: lw.Parameter(v1[i]) for i in uses}
-    c = build(env, prog, params={i: P.get(i) for i in range(len(prog))})
+    c = build(env, prog, params={i: P.get(i) for i in range(len(prog))}, observe=True)
     ref1 = build(env, prog, params={i: v1[i] for i in range(len(prog))}).U_full
     ok = _same(env, c.U_full, ref1)
     env.check_true(f"{name}.initial[{label}]", ok, note="unitary for the values the parameters had at construction", model=dict(program=label))
